@@ -49,7 +49,7 @@ type caseT struct {
 
 var nets = []string{"tcp", "unix"}
 var modes = []string{"LT", "ET", "ONESHOT"}
-var scenarios = []string{"peer-close", "peer-reset", "app-close", "app-close-error", "multi-close", "deadline", "overflow", "close-in-onopen", "stop", "multi-close"}
+var scenarios = []string{"peer-close", "peer-reset", "app-close", "app-close-error", "multi-close", "deadline", "overflow", "close-in-onopen", "stop", "multi-close", "backlog-reset", "backlog-close", "write-error"}
 
 func genCase(r *h.Run, phase string, idx int) caseT {
 	rng := r.Rand("c03-"+phase, idx)
@@ -59,6 +59,7 @@ func genCase(r *h.Run, phase string, idx int) caseT {
 	c.Cfg.NPoller = 1 + rng.Intn(3)
 	c.Cfg.MaxWB = 64 << 10
 	c.Delay = rng.Intn(2) == 0
+	c.Shim = phase == "shim"
 	n := 4 + rng.Intn(12)
 	for i := 0; i < n; i++ {
 		p := connPlan{Origin: []string{"accept", "accept", "add", "dial"}[rng.Intn(4)], Scenario: scenarios[rng.Intn(len(scenarios))], Traffic: rng.Intn(2) == 0}
@@ -68,10 +69,16 @@ func genCase(r *h.Run, phase string, idx int) caseT {
 		if p.Origin == "dial" && p.Scenario == "close-in-onopen" {
 			p.Scenario = "app-close" // dialed connections get no open notification
 		}
+		if p.Scenario == "backlog-reset" || p.Scenario == "backlog-close" || p.Scenario == "write-error" {
+			p.Traffic = false
+		}
+		if p.Scenario == "write-error" && phase != "shim" {
+			p.Scenario = "backlog-reset"
+		}
 		c.Conns = append(c.Conns, p)
 	}
 	if c.Cfg.Net == "tcp" {
-		kinds := []string{"accepted", "refused", "timeout"}
+		kinds := []string{"accepted", "refused", "timeout", "pending-stop"}
 		for i := 0; i < 3; i++ {
 			c.Dials = append(c.Dials, dialPlan{Kind: kinds[rng.Intn(len(kinds))]})
 		}
@@ -456,6 +463,49 @@ func runCase(r *h.Run, c caseT) {
 						break
 					}
 				}
+			case "backlog-reset", "backlog-close":
+				// fill the socket until nbio has to cache (below the overflow bound), then the peer goes away:
+				// the failure is met by the poller's flush, not by a Write call
+				buf := make([]byte, 8<<10)
+				for k := 0; k < 4000; k++ {
+					if _, err := cn.Write(buf); err != nil {
+						break
+					}
+					if bk := nbio.VerifBacklog(cn); bk.BufBytes > 0 {
+						r.Count("backlog_then_peer_gone", 1)
+						break
+					}
+				}
+				cr.expectPeer = true
+				if cr.plan.Scenario == "backlog-reset" {
+					if tc, ok := cr.peer.(*net.TCPConn); ok {
+						_ = tc.SetLinger(0)
+					}
+				}
+				cr.peer.Close()
+			case "write-error":
+				// shim: the n-th write-side syscall on this connection fails with a fatal errno
+				errno := []syscall.Errno{syscall.ECONNRESET, syscall.EPIPE, syscall.ETIMEDOUT}[prng.Intn(3)]
+				pol := outb.NewPolicy(cn, "random", c.Cfg.Mode, c.Seed+int64(i))
+				pol.FatalAt = int64(1 + prng.Intn(25))
+				pol.FatalErr = errno
+				outb.SetPolicy(cn.Hash(), pol)
+				w.mu.Lock()
+				cr.causes = append(cr.causes, errno)
+				w.mu.Unlock()
+				go func() { _, _ = io.Copy(io.Discard, cr.peer) }()
+				for k := 0; k < 400; k++ {
+					if _, err := cn.Write(make([]byte, 1+prng.Intn(6000))); err != nil {
+						break
+					}
+					if cl, _ := cn.IsClosed(); cl {
+						break
+					}
+					if k%8 == 7 {
+						time.Sleep(200 * time.Microsecond)
+					}
+				}
+				outb.DropPolicy(cn.Hash(), cn)
 			case "close-in-onopen", "stop":
 			}
 		}(i, cr)
@@ -474,7 +524,7 @@ func runCase(r *h.Run, c caseT) {
 		switch cr.plan.Scenario {
 		case "stop":
 			return false
-		case "overflow":
+		case "overflow", "write-error":
 			cl, _ := cr.c.IsClosed()
 			return cl
 		}
@@ -523,7 +573,8 @@ func runCase(r *h.Run, c caseT) {
 	}
 
 	// ---- dials with known outcomes
-	if !runDials(r, c, env, viol, rng) {
+	var afterStop []func() bool
+	if !runDials(r, c, env, viol, rng, &afterStop) {
 		return
 	}
 
@@ -538,6 +589,11 @@ func runCase(r *h.Run, c caseT) {
 		return
 	}
 	time.Sleep(2 * time.Millisecond)
+	for _, f := range afterStop {
+		if !f() {
+			return
+		}
+	}
 	w.mu.Lock()
 	defer w.mu.Unlock()
 	for _, cr := range w.order {
@@ -562,7 +618,12 @@ func runCase(r *h.Run, c caseT) {
 		got := cr.closeErrs[0]
 		bad := ""
 		switch cr.plan.Scenario {
-		case "peer-close", "peer-reset":
+		case "write-error":
+			// the write-buffer bound is a second legitimate first cause when the shim keeps refusing
+			if got != nil && !errors.Is(got, cr.causes[0].(syscall.Errno)) && !errors.Is(got, nbio.ErrOverflow) {
+				bad = fmt.Sprintf("the kernel failed a write with %v, the notification reports %v", cr.causes[0], got)
+			}
+		case "peer-close", "peer-reset", "backlog-reset", "backlog-close":
 			if !cr.plan.Traffic && !isPeerClass(got) {
 				bad = fmt.Sprintf("peer closed the connection, the notification reports %v (expected EOF / reset class)", got)
 			}
@@ -674,7 +735,7 @@ func postClose(r *h.Run, c caseT, cn *nbio.Conn, addPost func(sig, d string), pr
 }
 
 // runDials exercises DialAsync against harness listeners with known outcomes.
-func runDials(r *h.Run, c caseT, env *outb.Env, viol func(sig, d string), rng *rand.Rand) bool {
+func runDials(r *h.Run, c caseT, env *outb.Env, viol func(sig, d string), rng *rand.Rand, afterStop *[]func() bool) bool {
 	for _, d := range c.Dials {
 		type res struct {
 			c   *nbio.Conn
@@ -821,6 +882,72 @@ func runDials(r *h.Run, c caseT, env *outb.Env, viol func(sig, d string), rng *r
 				return false
 			}
 			r.Seen("dial_outcomes", "unix-missing/error")
+		case "pending-stop":
+			// a dial that is still connecting (accept queue full) when the engine stops: the outcome
+			// must be reported exactly once and must not be success
+			fd, err := syscall.Socket(syscall.AF_INET, syscall.SOCK_STREAM, 0)
+			if err != nil {
+				continue
+			}
+			if err := syscall.Bind(fd, &syscall.SockaddrInet4{Addr: [4]byte{127, 0, 0, 1}}); err != nil {
+				syscall.Close(fd)
+				continue
+			}
+			_ = syscall.Listen(fd, 0)
+			sa, _ := syscall.Getsockname(fd)
+			addr := fmt.Sprintf("127.0.0.1:%d", sa.(*syscall.SockaddrInet4).Port)
+			var fill []net.Conn
+			for k := 0; k < 4; k++ {
+				if fc, err := net.DialTimeout("tcp", addr, 300*time.Millisecond); err == nil {
+					fill = append(fill, fc)
+				}
+			}
+			release := func() {
+				for _, fc := range fill {
+					fc.Close()
+				}
+				syscall.Close(fd)
+			}
+			if pc, err := net.DialTimeout("tcp", addr, 300*time.Millisecond); err == nil {
+				pc.Close()
+				release()
+				r.Count("dial_timeout_setup_failed", 1)
+				continue
+			}
+			to := time.Duration(0)
+			if rng.Intn(2) == 0 {
+				to = time.Hour
+			}
+			serr := env.G.DialAsyncTimeout("tcp", addr, to, cb)
+			if serr != nil {
+				release()
+				continue
+			}
+			time.Sleep(20 * time.Millisecond)
+			if len(get()) != 0 {
+				// it did not stay pending (kernel let it through or failed it): nothing to decide here
+				release()
+				continue
+			}
+			*afterStop = append(*afterStop, func() bool {
+				defer release()
+				waitStable(100)
+				rs := get()
+				if len(rs) == 0 {
+					viol("dial:pending-closed:no-outcome", "a DialAsync still connecting when the engine was stopped never invoked its callback (stable 3 s after Stop returned)")
+					return false
+				}
+				if len(rs) > 1 {
+					viol("dial:pending-closed:reported-twice", fmt.Sprintf("callback invoked %d times", len(rs)))
+					return false
+				}
+				if rs[0].err == nil {
+					viol("dial:pending-closed:reported-success", "a DialAsync that was still connecting (accept queue full) when the engine stopped invoked its callback with a nil error: the connection was never established")
+					return false
+				}
+				r.Seen("dial_outcomes", "pending-closed/callback-error")
+				return true
+			})
 		case "accepted":
 			// covered by the "dial" origin connections; here: success must be reported exactly once
 			l, err := net.Listen("tcp", "127.0.0.1:0")
@@ -885,6 +1012,9 @@ func guarded(r *h.Run, c caseT) {
 func main() {
 	r := h.Start("C03")
 	defer r.Finish()
+	if r.Phase == "shim" {
+		outb.InstallShim()
+	}
 	if r.Replay != "" {
 		var c caseT
 		if err := r.ReplayCase(&c); err != nil {
